@@ -9,7 +9,7 @@ def run(ctx):
             # round 2: the transaction flag lost on the refresh-on-pick path / on the ASK sub-batch, a pooled retry object that keeps
             # the length of its ASK index list
             'MC_cluster_neg_refreshinit.cfg': 'TxResentWhole', 'MC_cluster_neg_askrun.cfg': 'TxResentWhole', 'MC_cluster_neg_pool.cfg': 'BatchOrder',
-            # a block sent again after its replies were lost with the connection (doresultfn before fix bbafe77)
+            # a block sent again after its replies were lost with the connection (doresultfn before fix 173cee7)
             'MC_cluster_neg_txloss.cfg': 'TxResentWhole'}
     # round 2: inittx = transactions whose slot is found by a refresh on pick and which are redirected in the same DoMulti;
     # hop = two-hop redirects (ASK -> MOVED by the ASK target, MOVED -> ASK); pool = two batches in a row on one client with
